@@ -33,7 +33,14 @@ func (reg *ResourceRegistry) ScanStorage(root string) error {
 		if err != nil {
 			return err
 		}
-		if !strings.HasPrefix(root, reg.storageDir.Path) {
+		// The root must be the storage dir itself or lie below it. Comparing
+		// with the separator appended keeps siblings that merely share the
+		// storage dir as a name prefix (eg. "<storage>-other") out of scope.
+		scopePrefix := reg.storageDir.Path
+		if !strings.HasSuffix(scopePrefix, string(filepath.Separator)) {
+			scopePrefix += string(filepath.Separator)
+		}
+		if root != reg.storageDir.Path && !strings.HasPrefix(root, scopePrefix) {
 			return errors.New("supplied scan root path not within storage")
 		}
 	}
